@@ -11,6 +11,7 @@ import traceback
 
 VERIF = os.path.dirname(os.path.dirname(os.path.abspath(__file__)))
 EVIDENCE_DIR = os.path.join(VERIF, "evidence")
+VIOLATION_CAP = 5000
 REPLAY_DIR = os.path.join(VERIF, "replays")
 KNOWN = os.path.join(VERIF, "known_findings.json")
 SCHEMA = "/root/.vp/EVIDENCE.schema.json"
@@ -60,6 +61,8 @@ class Run:
         self.outcomes = set()
         self.samples = []
         self.violations = []
+        self._violation_keys = set()
+        self.violations_dropped = 0  # beyond VIOLATION_CAP only counted (a broken tree can produce millions)
         self.known_hits = {}
         self.assumptions = list(COMMON_ASSUMPTIONS)
         self.extra = {}
@@ -106,7 +109,11 @@ class Run:
                 self.known_hits[kid] = {"what": k["what"], "count": 0, "first_key": key}
             self.known_hits[kid]["count"] += 1
             return False
-        if any(v["key"] == key for v in self.violations):
+        if key in self._violation_keys:
+            return True
+        self._violation_keys.add(key)
+        if len(self.violations) >= VIOLATION_CAP:
+            self.violations_dropped += 1
             return True
         self.violations.append({"key": key, "what": what, "witness": jsonable(witness)})
         return True
@@ -172,7 +179,7 @@ class Run:
             "coverage": cov,
             "assumptions": self.assumptions,
             "wall_s": round(wall, 3),
-            "violations": len(self.violations),
+            "violations": len(self.violations) + self.violations_dropped,
         }
         try:
             import jsonschema
@@ -190,7 +197,7 @@ class Run:
         print(
             f"[{self.pid}] tier={self.tier} seed={self.seed} states={self.states} transitions={self.transitions} "
             f"validated={self.validated} nontrivial={self.nontrivial} outcomes={len(self.outcomes)} "
-            f"errors={sum(self.errors.values())} violations={len(self.violations)} "
+            f"errors={sum(self.errors.values())} violations={len(self.violations) + self.violations_dropped} "
             f"known={sum(h['count'] for h in self.known_hits.values())} wall={wall:.1f}s"
         )
         if self.violations:
